@@ -2,7 +2,7 @@
    reproduces what was observed on the implementation for a case (agree = true),
    then those observations satisfy the Spec (holds = true).  So on every case on
    which the run reports agree, the theorems about the model speak about the code. *)
-From Boltons Require Import Lib.Prelude Model.C04_Model Spec.C04_Spec Check.C04_Check Proofs.C04_Hoare Proofs.C04_Inv Proofs.C04_Abort.
+From Boltons Require Import Lib.Prelude Model.C04_Model Spec.C04_Spec Check.C04_Check Proofs.C04_Hoare Proofs.C04_Inv Proofs.C04_Abort Proofs.C04_Pass Proofs.C04_Replay.
 Open Scope nat_scope.
 
 Lemma bytes_eqb_eq a b : bytes_eqb a b = true -> a = b.
@@ -85,6 +85,40 @@ Proof.
   - destruct (crash_safe_lemma (k_cfg c) _ _ _ _ _ _ o w Hdp Hpd Hwf Hr) as [H _]. exact H.
 Qed.
 
+Lemma content_power_init l n : content_power (fs_of_list l) n = option_map fst (assoc n l).
+Proof.
+  induction l as [|[m [cnt md]] r IH]; cbn [fs_of_list assoc]; [reflexivity|].
+  unfold content_power, fs_create. cbn [f_dir f_ino]. unfold upd at 1.
+  destruct (Nat.eqb n m) eqn:E.
+  - unfold upd. rewrite Nat.eqb_refl. reflexivity.
+  - unfold content_power in IH. rewrite <- IH. destruct (f_dir (fs_of_list r) n) as [i|] eqn:Ei; [|reflexivity].
+    pose proof (wf_fs_of_list r n i Ei) as Hlt. unfold upd. destruct (Nat.eqb i (f_next (fs_of_list r))) eqn:E2; [|reflexivity].
+    apply Nat.eqb_eq in E2. lia.
+Qed.
+
+Lemma content_power_init_fs c :
+  c_dest (k_cfg c) <> c_part (k_cfg c) ->
+  content_power (init_fs c) (c_dest (k_cfg c)) = option_map fst (assoc (c_dest (k_cfg c)) (k_init c)).
+Proof.
+  intro Hdp. rewrite <- content_power_init. unfold init_fs. destruct (k_partlink c); [|reflexivity].
+  unfold content_power, set_name. cbn [f_dir f_ino]. unfold upd.
+  destruct (Nat.eqb (c_dest (k_cfg c)) (c_part (k_cfg c))) eqn:E; [apply Nat.eqb_eq in E; contradiction|reflexivity].
+Qed.
+
+Lemma dest_good_model_power (c : c04_case) crash o w :
+  c_dest (k_cfg c) <> c_part (k_cfg c) -> same_dir (c_part (k_cfg c)) = true ->
+  run_model c crash = (o, w) ->
+  dest_good c (content_power (w_fs w) (c_dest (k_cfg c))) = true.
+Proof.
+  intros Hdp Hpd Hr. unfold run_model in Hr.
+  assert (Hwf : wf (init_fs c)) by apply wf_init_fs.
+  assert (Holds0 : content_power (init_fs c) (c_dest (k_cfg c)) :: appear_contents (k_sched c) = olds c).
+  { unfold olds. rewrite content_power_init_fs by exact Hdp. reflexivity. }
+  unfold dest_good. rewrite <- Holds0. destruct (k_raises c) eqn:Er.
+  - destruct (aborted_lemma (k_cfg c) _ _ _ _ _ o w Hdp Hpd Hwf Hr) as (_ & H & _). exact H.
+  - destruct (crash_safe_lemma (k_cfg c) _ _ _ _ _ _ o w Hdp Hpd Hwf Hr) as [_ H]. exact H.
+Qed.
+
 Theorem agree_implies_holds (c : c04_case) :
   c_dest (k_cfg c) <> c_part (k_cfg c) -> same_dir (c_part (k_cfg c)) = true ->
   agree c = true -> holds c = true.
@@ -94,12 +128,29 @@ Proof.
   assert (Hwf : wf (init_fs c)) by apply wf_init_fs.
   assert (Hind : In (c_dest (k_cfg c)) (cands c)) by (unfold cands; left; reflexivity).
   assert (Hinp : In (c_part (k_cfg c)) (cands c)) by (unfold cands; right; left; reflexivity).
-  unfold holds.
+  (* power loss on the implementation's own calls *)
+  assert (Hpow : power_ok c = true).
+  { unfold power_ok. destruct (no_appear (k_sched c)) eqn:Hna; [|reflexivity]. cbn [negb orb].
+    apply forallb_forall. intros k Hk. unfold power_view. destruct Hk as [<- | Hk].
+    - rewrite firstn_all. unfold agree_run in Hrun. destruct (run_model c None) as [o w] eqn:Er.
+      apply andb_true_iff in Hrun as [Hrun _]. apply andb_true_iff in Hrun as [Hrun _]. apply andb_true_iff in Hrun as [_ Ht].
+      apply trace_eqb_eq in Ht. rewrite <- Ht.
+      pose proof Er as Er'. unfold run_model in Er'.
+      rewrite (replay_run (init_fs c) (k_umask c) _ _ _ _ _ o w Hna Er'). cbn [fst].
+      eapply dest_good_model_power; eauto.
+    - apply in_map_iff in Hk as ([k' fobs] & Hk' & Hin). cbn in Hk'. subst k'.
+      rewrite forallb_forall in Hcr. specialize (Hcr _ Hin). unfold agree_crash in Hcr.
+      destruct (run_model c (Some k)) as [o w] eqn:Er.
+      apply andb_true_iff in Hcr as [Hcr _]. apply andb_true_iff in Hcr as [_ Ht]. apply trace_eqb_eq in Ht. rewrite <- Ht.
+      pose proof Er as Er'. unfold run_model in Er'.
+      rewrite (replay_run (init_fs c) (k_umask c) _ _ _ _ _ o w Hna Er'). cbn [fst].
+      eapply dest_good_model_power; eauto. }
+  unfold holds. rewrite Hpow, andb_true_r.
   (* crash observations *)
   assert (H1 : forallb (fun kf => dest_good c (dest_of c (snd kf))) (k_crashes c) = true).
   { rewrite forallb_forall in *. intros [k fobs] Hin. specialize (Hcr _ Hin). unfold agree_crash in Hcr.
     destruct (run_model c (Some k)) as [o w] eqn:Er.
-    apply andb_true_iff in Hcr as [Hf _].
+    apply andb_true_iff in Hcr as [Hcr _]. apply andb_true_iff in Hcr as [Hf _].
     destruct (files_agree_dest _ _ _ _ Hf Hind) as [Hd _].
     cbn [snd]. unfold dest_of. rewrite Hd. eapply dest_good_model; eauto. }
   rewrite H1. cbn [andb].
